@@ -7,6 +7,18 @@ from . import common as C
 from . import gen, oracles as O, simcheck
 
 
+def cutoff_ops(rng, c):
+    """mostly one fresh run; sometimes a run cut off after a few steps followed by a second call with
+    any combination of the two initialize flags (state kept / reset, logs kept / cleared)"""
+    o = gen.gen_sim_op(rng, c, vary_init=True)
+    if rng.random() < 0.85:
+        return [o]
+    o1 = dict(o, init_state=True, init_log=True, max_time=rng.choice([1, 2, 3, 4, 5]))
+    si, li = rng.choice([(False, False), (False, True), (True, False), (True, True)])
+    o2 = dict(o, init_state=si, init_log=li, rule=rng.randrange(0, 9))
+    return [o1, o2]
+
+
 class Kit:
     def __init__(self, pid, oracle, streams=(("structured", 0.60), ("pairs", 0.10), ("crossing", 0.10), ("conveyor", 0.06), ("autoabs", 0.06), ("gates", 0.08)), n_quick=1200, n_thorough=20000,
                  cone=None, rule="", feasible_frac=0.5, make_ops=None, facilities=None, fs_only=False, tweak=None,
@@ -48,12 +60,13 @@ class Kit:
             if stream not in ("pairs", "crossing", "conveyor", "autoabs", "gates") and rng.random() < self.feasible_frac:
                 gen.simplify_feasible(rng, c)
             c["ops"] = self.make_ops(rng, c) if self.make_ops else [gen.gen_sim_op(rng, c, vary_init=True)]
-            if stream == "autoabs" and not self.make_ops:
+            single = len(c["ops"]) == 1 and c["ops"][0].get("op") == "simulate"
+            if stream == "autoabs" and single:
                 k = c.pop("_ready_step")
                 c["ops"][0]["abs"] = rng.choice([[k], [k], [k, k + 1], [k - 1, k] if k > 0 else [k], []])
                 c["ops"][0]["auto_abs"] = rng.random() < 0.75
             c.pop("_ready_step", None)
-            if stream == "crossing" and not self.make_ops:
+            if stream == "crossing" and single:
                 c["ops"][0]["rule"] = rng.choice([0, 4, 5, 6, 6, 5, 1])
                 c["ops"][0]["abs"] = []
             c["stream"] = stream
